@@ -562,6 +562,14 @@ pub fn oracles(out: &mut Out, p: &Plan, o: &Outcome, props: &[&str]) {
                     if !same && p.bom == Bom::Off {
                         out.fail("C19", &lhs, format!("call#{} latin1_byte_compatible_up_to = {} but the first {} bytes do not decode to their own values", i, n, n));
                     }
+                    // the decoder itself, in its actual state: what this very call then wrote must begin
+                    // with exactly those n bytes (a decoder that still owes output - a pending ASCII byte,
+                    // a delayed character - is not in a neutral state and must have answered None)
+                    if p.sink16 && n > 0 && c.read >= n && c.units16.len() >= n && !matches!(c.res, Res::Panic(_)) {
+                        if !(0..n).all(|j| c.units16[j] == u16::from(src[j])) {
+                            out.fail("C19", &lhs, format!("call#{} latin1_byte_compatible_up_to = {} but the call on the same buffer did not begin its output with those {} bytes (first units {:04x?})", i, n, n, &c.units16[..n.min(4)]));
+                        }
+                    }
                     if n < src.len() && p.bom == Bom::Off {
                         let b = src[n];
                         let mut f2 = cur_enc.new_decoder_without_bom_handling();
